@@ -1,5 +1,5 @@
 // Counterexample(s) found by Kani/CBMC for property C12, harness c12_value_plain_2 (ser_quoting::verif::c12_value_plain_2)
-// failed checks: [{"desc": "\"a string value is emitted plain although the plain form does not read back as the same string\"", "file": "/verif/harness/h_ser_quoting.rs", "line": 244, "fn": "ser_quoting::verif::value_plain_n::<2>"}]
+// failed checks: [{"desc": "\"a string value is emitted plain although the plain form does not read back as the same string\"", "file": "/verif/harness/h_ser_quoting.rs", "line": 246, "fn": "ser_quoting::verif::value_plain_n::<2>"}]
 // replay: /verif/bin/check --replay /verif/replays/C12-c12_value_plain_2.rs
 //HARNESS c12_value_plain_2
 /// Test generated for harness `ser_quoting::verif::c12_value_plain_2` 
@@ -18,16 +18,16 @@
 /// logic.
 
 #[test]
-fn kani_concrete_playback_c12_value_plain_2_6631638963070733526() {
+fn kani_concrete_playback_c12_value_plain_2_7128309793150645960() {
     let concrete_vals: Vec<Vec<u8>> = vec![
-        // 78
-        vec![78],
-        // 32
-        vec![32],
-        // 1
-        vec![1],
-        // 1
-        vec![1],
+        // 95
+        vec![95],
+        // 55
+        vec![55],
+        // 0
+        vec![0],
+        // 0
+        vec![0],
     ];
     kani::concrete_playback_run(concrete_vals, c12_value_plain_2);
 }
